@@ -39,11 +39,11 @@ def inside(r, x, y):
 
 class Gen(object):
     def __init__(self, rng, style=None, rel=True, inch=True, arcs_=True, at=True, ext=True, addregions=True,
-                 g92e=True, zmoves=True, g90e=None, scripts=True, junk=False, layers=None, g92xyz=False, rel_e=False):
+                 g92e=True, zmoves=True, g90e=None, scripts=True, junk=False, layers=None, g92xyz=False, rel_e=False, wipe=True, origin=True):
         self.rng = rng
         self.style = style if style is not None else rng.choice(['eonly', 'eonly', 'firmware', 'none'])
         self.o = dict(rel=rel, inch=inch, arcs=arcs_, at=at, ext=ext, addregions=addregions, g92e=g92e,
-                      zmoves=zmoves, scripts=scripts, junk=junk, g92xyz=g92xyz, rel_e=rel_e)
+                      zmoves=zmoves, scripts=scripts, junk=junk, g92xyz=g92xyz, rel_e=rel_e, wipe=wipe, origin=origin)
         self.g90e = rng.random() < 0.5 if g90e is None else g90e
         self.layers = layers or rng.randint(1, 3)
 
@@ -111,12 +111,13 @@ class Gen(object):
             self.emit(rng.choice(['M204 S%d' % rng.randint(500, 3000), 'M204 P%d T%d' % (rng.randint(500, 2000), rng.randint(500, 2000)),
                                   'M205 X%d Y%d' % (rng.randint(5, 20), rng.randint(5, 20)), 'M205 X%d' % rng.randint(1, 9),
                                   'M117 Layer %d' % rng.randint(1, 99), 'M73 P%d' % rng.randint(0, 100), 'M73 P%d R%d' % (rng.randint(0, 100), rng.randint(0, 300)),
-                                  'G4 P%d' % rng.randint(1, 500), 'G4'] + list(self.extra_ext_cmds)))
+                                  'G4 P%d' % rng.randint(1, 500), 'G4', 'M204 S0', 'M205 X0 Y0', 'M73 P0 R0', 'M73 P0', 'M106 S0', 'M205 X0', 'G4 P0'] + list(self.extra_ext_cmds)))
         elif r < 0.16:
             self.emit(rng.choice(['M106 S%d' % rng.randint(0, 255), 'M107', 'M140 S60', 'T0', 'M82', 'M400', 'G4 S0', 'M105', 'G29.1']))
         elif r < 0.19 and o['at']:
             self.events.append(('at', rng.choice(['@ExcludeRegion off', '@ExcludeRegion on', '@ExcludeRegion disable', '@ExcludeRegion enable',
-                                                 '@ExcludeRegion onward', '@pause', '@ExcludeRegion', '@ExcludeRegion  on now'])))
+                                                 '@ExcludeRegion onward', '@pause', '@ExcludeRegion', '@ExcludeRegion  on now', '@ExcludeRegion OFF', '@ExcludeRegion Disable',
+                                                 '@ExcludeRegion On', '@excluderegion off', '@ExcludeRegion off ', '@ExcludeRegion ENABLE'])))
         elif r < 0.21 and o['g92e'] and not self.retracted:
             self.emit('G92 E0')
         elif r < 0.23 and o['inch'] and not self.retracted:
@@ -169,7 +170,20 @@ class Gen(object):
             a = 2 * math.pi * k / n
             pts.append((F('%.3f' % (float(cx) + float(rad) * math.cos(a))), F('%.3f' % (float(cy) + float(rad) * math.sin(a)))))
         # travel there
+        if self.o['wipe'] and self.style == 'eonly' and not self.retracted and rng.random() < 0.2:
+            # slicer wipe: the retraction is carried by a move
+            self.move(x=self.U.x + F(rng.randint(-2000, 2000), 1000), y=self.U.y + F(rng.randint(-2000, 2000), 1000), e=self.U.e - self.alen)
+            self.retracted = True
         self.retract()
+        if self.o['origin'] and rng.random() < 0.12:
+            # park / wipe at the bed origin: coordinates that are exactly 0
+            k = rng.random()
+            if k < 0.4:
+                self.move(x=F(0), y=F(0), g='G0')
+            elif k < 0.7:
+                self.move(x=F(0))
+            else:
+                self.move(y=F(0))
         hop = self.o['zmoves'] and rng.random() < 0.3
         if hop:
             self.move(z=z + F(4, 10), f=3000)
